@@ -80,6 +80,7 @@ PROPS['C02'] = {
         'C02.V.rect_contains_rect': r'^c02_k_contains_rect',
         'C02.V.line_contains_coord': r'^c02_k_contains_line_coord',
         'C02.V.line_contains_line': r'^c02_k_contains_line_line',
+        'C02.V.line_intersects_line': r'^c02_k_line_line$',
         'C02.V.rect_intersects_line': r'^c02_k_rect_line',
         'C02.V.line_position': r'^c02_k_line_coord',
         'C02.V.linestring_position': r'^c02_k_linestring_pos',
